@@ -68,7 +68,7 @@ pub fn reserve_strategy() -> impl Strategy<Value = (u8, u128, u128)> {
 
 pub fn swap_strategy() -> impl Strategy<Value = SwapOp> {
     // flat tuple, no unions (see ops::op_strategy)
-    (any::<bool>(), any::<bool>(), 0u8..8, any::<u32>(), 0u8..6, 0u8..4, any::<u16>(), 0u8..5, any::<bool>(), 0u8..40).prop_map(
+    (any::<bool>(), any::<bool>(), 0u8..8, any::<u32>(), 0u8..8, 0u8..4, any::<u16>(), 0u8..5, any::<bool>(), 0u8..40).prop_map(
         |(input, add, class, k, limit_mode, r, rk, nb, over, adm)| SwapOp {
             input,
             add,
